@@ -18,7 +18,7 @@ struct Prop {
 			ctx.label("program_C03"); return;
 		}
 		if((in.head(12) % 5U) == 4) { ctx.desc << "[C05-program] "; vp::c05::run_c05<vp::CfgBased>(in, ctx); ctx.label("program_C05"); return; }
-		if((in.head(12) % 4U) == 3) { ctx.desc << "[C06-program] "; if((in.head(1) & 1U) != 0) { run_c06_based<2>(in, ctx); } else { run_c06_based<1>(in, ctx); } return; }
+		if((in.head(12) % 4U) == 3) { ctx.desc << "[C06-program] "; bool const pmr = (in.head(1) & 2U) != 0; if((in.head(1) & 1U) != 0) { if(pmr) { run_c06_based<2, true>(in, ctx); } else { run_c06_based<2>(in, ctx); } } else { if(pmr) { run_c06_based<1, true>(in, ctx); } else { run_c06_based<1>(in, ctx); } } return; }
 		if((in.head(12) & 1U) == 0) { ctx.desc << "[C01-program] "; vp::run_c01<vp::CfgBased>(in, ctx); ctx.label("program_C01"); }
 		else { ctx.desc << "[C02-program] "; vp::run_c02<vp::CfgBased>(in, ctx); ctx.label("program_C02"); }
 	}
